@@ -32,7 +32,7 @@ MANIFEST = {
     "C13": dict(text="The specification is total over the adversarial input alphabet; histories over that alphabet (TLC behaviours and seeded "
                      "generators) run on the real handlers under recover(); a panic is a trace line no specification action matches.",
                 ref="6/C13", note=PROC_NOTE, technique="TLA+ specification as generator/oracle (TLC) + trace validation; panic = rejected line"),
-    "C14": dict(text="Cleanup decision table model-checked with scaled thresholds (NoEarlyDiscard, RetryCadence, RetryOnlyWhenDue); the real "
+    "C14": dict(text="Cleanup decision table model-checked with scaled thresholds (NoEarlyDiscard, RetryCadence, RetryOnlyWhenDue, BoundedLife); the real "
                      "handleCleanup is validated on histories of ticks and elapsed durations from 1 s to 120 h, with a full outbound "
                      "request queue and with an unbuffered broadcast queue whose reader is busy; the fairness assumption of CleanupTick "
                      "is checked in real time on the real Run loop and its real tick source under steady gossip (one tick period).",
